@@ -851,6 +851,9 @@ def c08_reference(data, script, dec, cache_size=None):
             continue
         if cm[:1] == b'D' and len(cm) == 5 + 2 + 4 + 8:
             rows.append(cm[-2:])
+    if valid and data['outcome'] == ('done', 'Err') and data.get('client_read') is not None and not data.get('client_write_failed') \
+            and data['client_read'] < sum(len(m) for m in script):
+        V.append(('C08', 'H/valid-program-rejected', 'the pooler ends the session of a client whose program is valid (every Bind/Describe names a statement the client has prepared and not closed)'))
     if not valid and rows and not expected:
         V.append(('C08', 'H/foreign-statement-executed', 'the client bound a statement name it never prepared and got a result row: a statement of another client was executed for it'))
         if cm[:1] == b'E' and b'C26000' in cm and b'VFATAL' not in cm and valid:
@@ -925,6 +928,8 @@ def h_violation(prop, key, cache_on, incomplete, hexs, n_before=None, denied_hex
         if cache_on and prop == 'C08':
             full, _r = HE.split_messages(HE.bvs(hexs), 'client script')
             V += c08_reference(data, full, dec, cache_on if isinstance(cache_on, int) and not isinstance(cache_on, bool) else None)
+            if key == 'H/valid-program-rejected' and 'prepared statement' in r.get('a_result', '') and r.get('a_result', '').startswith('err'):
+                V.append(('C08', 'H/valid-program-rejected', 'native: the session ended with %s' % r.get('a_result')))
         hit = [v for v in V if v[0] == prop and v[1] == key]
         if prop == 'C16' and key == 'H/checkout-while-paused':
             # natively the pause gate is observed as: a request sent after PAUSE reaches a backend while the pool is still paused
@@ -943,7 +948,9 @@ def h_violation(prop, key, cache_on, incomplete, hexs, n_before=None, denied_hex
             st = [x[0] for x in (r.get('clients_after_a') or [])]
             busy = any(decv(rq.get('status_after')) != ord('I') for rq in data['reqs'][-1:])
             hit = [1] if (len(st) == 1 and st[0] != ('active' if busy else 'idle')) else []
-        if prop == 'C18' and key in ('H/transaction-total', 'H/query-total'):
+        if prop == 'C18' and key in ('H/transaction-total', 'H/query-total') and cache_on:
+            hit = []
+        elif prop == 'C18' and key in ('H/transaction-total', 'H/query-total'):
             # natively: the still-connected client's counters in the registry against what the reference backends executed for it
             st = r.get('clients_after_a') or []
             units = [rq for rq in data['reqs'] if rq.get('origin') == 'client' and HE.code_of(rq['bytes']) in 'QS']
